@@ -286,10 +286,12 @@ def run(E: Engine, rep: Report, tier: str) -> dict:
     # offenders are reported under the IDs they have in the register (not their str()): with int IDs '2' is not an ID
     # of the register, and with mixed IDs it names another atom
     vco = E.fn(DEV + "._validate_coords")
-    sub_calls = [l for l in _S(E, vco, inline=False).log if l.kind == "call" and l.value[1][0] == "attr" and l.value[1][2] in ("_validate_atom_distance", "_validate_radial_distance") and l.value[2]]
+    from .symutil import arg as _arg_ids
+
+    sub_calls = [l for l in _S(E, vco, inline=False).log if l.kind == "call" and l.value[1][0] == "attr" and l.value[1][2] in ("_validate_atom_distance", "_validate_radial_distance") and _arg_ids(l, 0, "ids") is not None]
     if not sub_calls:
         raise AnalysisError("anchor: _validate_coords no longer hands ids to the distance / radius checks")
-    strd = [l for l in sub_calls if any(t[0] == "call" and t[1] == ("name", "str") for t in _sym.subterms(l.value[2][0]))]
+    strd = [l for l in sub_calls if any(t[0] == "call" and t[1] == ("name", "str") for t in _sym.subterms(_arg_ids(l, 0, "ids")))]
     rep.check(not strd, "SIB", "_validate_coords|offenders-keep-their-ids", "the ids handed to the checks are the mapping's keys themselves", "_validate_coords stringifies the ids before the checks fill RadiusError.invalid / DistanceError.invalid: an int ID 2 is reported as '2' (not an ID of the register) and with Register({'1': ..., 1: ...}) the report names the valid atom", E.where(vco))
     rep.floor("CLOSURE", 8)
     return {"functions_analysed": len(fns), "none_rule": st}
